@@ -145,7 +145,8 @@ ELEMENT_METHODS = {'get', 'values', 'items', 'keys', 'iterrows', 'itertuples', '
 SHALLOW_METHODS = {'copy', 'tolist', 'to_dict', 'to_list', 'difference', 'union', 'intersection'}
 # attributes of foreign objects
 VIEW_ATTRS = {'T', 'values', 'flat', 'real', 'imag', 'columns', 'index', 'loc', 'iloc', 'at', 'iat', 'data', 'x',
-              'dataset', 'covariance', 'weights', 'base', 'array', 'layout', 'str', 'dt', 'mT'}
+              'dataset', 'covariance', 'weights', 'base', 'array', 'layout', 'str', 'dt', 'mT',
+              '__dict__'}     # the attribute namespace of an object: removing entries is fine, see `dict_guard`
 IMMUTABLE_ATTRS = {'shape', 'dtype', 'size', 'ndim', 'name', '__name__', '__class__', '__module__', '__members__',
                    '__bases__', 'eps', 'nbytes', 'itemsize', 'empty', 'value', '__qualname__', '__doc__', 'dtypes',
                    'inv_cov', 'factor', 'n', 'd', 'neff', 'success', 'fun', 'status', 'message'}
@@ -1024,6 +1025,7 @@ class FnTx:
             self.flow(av, v)
             self.store_into(base, v)         # attribute store into a tracked object is a write to it
         elif isinstance(t, ast.Subscript):
+            self.dict_guard(t.value, node, True)
             base = self.eval(t.value)
             self.eval(t.slice)
             if self.root_attr(t.value) is not None:
@@ -1065,7 +1067,7 @@ class FnTx:
         for e in envs:
             names.update(e)
         out = {}
-        for n in names:
+        for n in sorted(names):
             vs = [e.get(n) for e in envs]
             special = [v for v in vs if v is not None and not isinstance(v, int)]
             if special:
@@ -1388,6 +1390,11 @@ class FnTx:
             out.inst = results[0].inst
         return out
 
+    def dict_guard(self, e, node, storing):
+        """`obj.__dict__[name] = v` / `.update(..)` would set attributes whose names the translator cannot see"""
+        if storing and isinstance(e, ast.Attribute) and e.attr == '__dict__':
+            self.fail(node, 'store into <obj>.__dict__ (computed attribute name)')
+
     @staticmethod
     def root_attr(e):
         while isinstance(e, ast.Subscript):
@@ -1652,7 +1659,7 @@ class FnTx:
         if fwd_names:
             # perfect forwarding `f(self, X, *args, **kwargs)`: same-named parameters of the donor signature
             rest = []
-            for n in fwd_names:
+            for n in sorted(fwd_names):
                 rest.extend(self.forward[n])
             byname = {p[0]: i for i, p in enumerate(callee.params)}
             posidx = [i for i, p in enumerate(callee.params) if p[2] == 'pos']
@@ -1873,6 +1880,7 @@ class FnTx:
                     return self.call_specs([self.an.spec_function(r[1], r[2])], args, call)
                 if r[0] == 'class':
                     return self.construct(r[1], args, call)
+        self.dict_guard(f.value, call, m in ('update', 'setdefault', '__setitem__'))
         recv = self._eval(f.value)
         if m == '__class__':
             self.mark_escaping(args)
